@@ -98,13 +98,13 @@ PROPERTIES = {
         'assumptions': [],
     },
     'C16': {
-        'functions': ['BaseEvent.__await__.wait', 'EventBus.stop', 'EventBus.wait_until_idle', 'EventBus._run_loop', 'EventBus._get_next_event', 'EventBus.step', 'CleanShutdownQueue.shutdown',
+        'functions': ['EventBus._start.close_hook', 'BaseEvent.__await__.wait', 'EventBus.stop', 'EventBus.wait_until_idle', 'EventBus._run_loop', 'EventBus._get_next_event', 'EventBus.step', 'CleanShutdownQueue.shutdown',
                       'EventBus._check_total_memory_usage', 'EventBus._execute_handlers', 'EventBus.execute_handler', 'EventBus._default_wal_handler', 'EventBus.expect'],
         'trusted_base': [AX[k] for k in ('A1', 'A2', 'A3', 'A5', 'A8', 'X1', 'X2')] + [SERIAL_ONLY,
             'bounded = every suspension point of stop()/wait_until_idle(timeout) is an asyncio wait with a non-None timeout (A3 bounds each by its timeout); the number of polling iterations is not bounded here (P4)',
             'cancellation: a CancelledError delivered at any suspension point of _get_next_event / wait_until_idle / stop / expect / _default_wal_handler leaves the function as CancelledError; '
             'the run loop makes no further step() after one was delivered',
-            'the loop-close hook (close_with_cleanup in _start) is not verified'],
+            'the loop-close hook close_with_cleanup (installed by _start) is verified as a closure over a list snapshot of the buses registered on the loop: every registered bus is stopped'],
         'not_decided': ['"after stop() returns no handler of that bus starts": decided for the run loop (it ends on cancellation / sees _is_running False); the inline-processing loop of BaseEvent.__await__ '
                         'may process a bus\'s queue only if that bus is running (call-site pre-condition, finding G3, repaired)',
                         'wall-clock bound of stop(): sum of the given timeout and 0.1 s, per A3'],
@@ -114,7 +114,7 @@ PROPERTIES = {
         'functions': ['EventBus.expect', 'EventBus.expect.notify', 'EventBus.on', 'EventBus._get_applicable_handlers', 'EventBus._would_create_loop', 'bubus.get_handler_id',
                       'EventBus._handler_dispatched_ancestor'],
         'trusted_base': [AX[k] for k in ('A1', 'A3', 'A8', 'A10', 'X1', 'X2')] + [
-            'EventBus.on contract assumed (appends the handler under key(pattern): "*", class name or the string)',
+            'EventBus.on is verified: it appends the handler under key(pattern) ("*", class name or the string) of a defaultdict(list)',
             'include / exclude / predicate are user predicates: deterministic per event (uninterpreted), may raise any Exception',
             'rely while expect() is suspended: other tasks neither remove nor duplicate this call\'s temporary handler',
             'lemma (over the contracts, not machine-checked): the temporary handler is offered exactly the events whose event_type equals its key (or all, for "*") by _get_applicable_handlers, '
